@@ -125,7 +125,7 @@ int main(int argc, char **argv) {
         uint64_t stride = std::strtoull(arg(argc, argv, "--stride", "1"), nullptr, 10);
         double max_s = std::atof(arg(argc, argv, "--max-seconds", "0"));
         bool per_run = flag(argc, argv, "--per-run"); unsigned max_report = (unsigned)std::atoi(arg(argc, argv, "--max-report", "20"));
-        Stats st; std::set<uint64_t> distinct; uint64_t viols = 0, runs = 0, nt = 0;
+        Stats st; std::set<uint64_t> distinct; uint64_t viols = 0, runs = 0, nt = 0; bool stop_after_violation = false;
         struct timespec t0; clock_gettime(CLOCK_MONOTONIC, &t0);
         for (uint64_t n = 0; n < count; n++) {
             uint64_t i = start + n * stride, rs = run_seed(base, i);
@@ -135,8 +135,9 @@ int main(int argc, char **argv) {
             ++runs; if (rr.nontrivial) ++nt;
             for (uint64_t h : pairs) distinct.insert(h);
             if (per_run) std::printf("R i=%llu sig=%016llx nt=%d pairs=%llu\n", (unsigned long long)i, (unsigned long long)rr.sig, rr.nontrivial ? 1 : 0, (unsigned long long)rr.pairs);
-            if (rr.viol.set) { ++viols; if (viols <= max_report) std::printf("V i=%llu runseed=%llu class=%s step=0 site=%s msg=%s\n", (unsigned long long)i, (unsigned long long)rs, rr.viol.cls.c_str(), one_line(rr.viol.site).c_str(), one_line(rr.viol.msg).c_str()); }
+            if (rr.viol.set) { ++viols; stop_after_violation = true; std::printf("V i=%llu runseed=%llu class=%s step=0 site=%s msg=%s\n", (unsigned long long)i, (unsigned long long)rs, rr.viol.cls.c_str(), one_line(rr.viol.site).c_str(), one_line(rr.viol.msg).c_str()); }
             if (max_s > 0 && (n & 63) == 63) { struct timespec t1; clock_gettime(CLOCK_MONOTONIC, &t1); if ((t1.tv_sec - t0.tv_sec) + (t1.tv_nsec - t0.tv_nsec) * 1e-9 > max_s) break; }
+            if (stop_after_violation && rr.viol.cls != "wide_writef_chunk_not_self_contained") break; else stop_after_violation = false;
         }
         std::printf("S {\"runs\": %llu, \"violations\": %llu, \"pairs\": %llu, \"calls\": %llu, \"rejected_by_format\": %llu, \"steps\": %llu, \"nontrivial_runs\": %llu, \"distinct_nontrivial\": %zu, "
                     "\"faults\": {\"sink_faults_planned\": %llu, \"sink_faults_fired\": %llu, \"cookie_write_failure\": %llu, \"ostream_overflow_failure\": %llu, \"istream_read_failure\": %llu, \"corrupted_source_token\": %llu}, \"per_sink\": {",
@@ -149,6 +150,7 @@ int main(int argc, char **argv) {
         std::printf("}}\n");
         const char *sigfile = arg(argc, argv, "--sigs", nullptr);
         if (sigfile) { std::ofstream f(sigfile, std::ios::binary); for (uint64_t h : distinct) f.write((const char *)&h, 8); }
+        if (stop_after_violation) { std::fflush(stdout); _exit(3); }
         return 0;
     }
     if (cmd == "dump") { uint64_t i = std::strtoull(arg(argc, argv, "--index", "0"), nullptr, 10); std::fputs(plan_to_text(gen_plan(run_seed(base, i))).c_str(), stdout); return 0; }
